@@ -81,6 +81,9 @@ type vfWorld struct {
 	raws    map[string]*vfRawTarget
 	sched   *vfSched
 	holds   map[string]chan struct{}
+	probeBarrier atomic.Bool
+	probeArrived atomic.Int32
+	probeGen     atomic.Uint32
 	maxIvl  time.Duration
 	maxWait time.Duration
 
@@ -210,7 +213,32 @@ func (vfProbeRoundTripper) RoundTrip(req *http.Request) (*http.Response, error) 
 	if w == nil || w.tearing.Load() {
 		runtime.Goexit()
 	}
-	return w.probeTransport.RoundTrip(req)
+	resp, err := w.probeTransport.RoundTrip(req)
+	if w.probeBarrier.Load() {
+		// probe answers that arrive at one virtual instant are handed to the proxy at the same real moment
+		w.probeRendezvous()
+	}
+	return resp, err
+}
+
+// probeRendezvous: the first to arrive waits until nobody else has arrived for a few thousand iterations, then all go.
+func (w *vfWorld) probeRendezvous() {
+	gen := w.probeGen.Load()
+	if w.probeArrived.Add(1) == 1 {
+		last, stable := int32(1), 0
+		for stable < 4000 {
+			if a := w.probeArrived.Load(); a != last {
+				last, stable = a, 0
+			} else {
+				stable++
+			}
+		}
+		w.probeArrived.Store(0)
+		w.probeGen.Add(1)
+		return
+	}
+	for w.probeGen.Load() == gen {
+	}
 }
 
 func vfInstallGlobals() {
